@@ -244,4 +244,57 @@ theorem cnt_filter_le (packs : List Pack) (f : Pack → Bool) : cnt (packs.filte
     · rw [cnt_cons, cnt_cons]; omega
     · rw [cnt_cons]; omega
 
+
+/-! ### carrying out a plan (`_execute_pack_operations`) -/
+
+/-- removing the packs of a combination (`_remove_pack_from_memory` for every
+combined pack) leaves exactly the packs that were not selected -/
+theorem foldl_erase_perm (ps : List Pack) : ∀ (packs kept : List Pack),
+    (ps ++ kept).Perm packs → (ps.foldl (fun acc p => acc.erase p) packs).Perm kept := by
+  induction ps with
+  | nil => intro packs kept h; simpa using h.symm
+  | cons p ps ih =>
+    intro packs kept h
+    simp only [List.foldl_cons]
+    exact ih _ _ (List.cons_perm_iff_perm_erase.mp h).2
+
+theorem executeOpsDup_nil (d : Nat) (packs : List Pack) : executeOpsDup d packs [] = packs := rfl
+
+/-- a single non-empty combination `ps` of `packs` is replaced by one new pack -/
+theorem executeOpsDup_single (d n : Nat) (packs ps kept : List Pack) (hne : ps ≠ [])
+    (h : (ps ++ kept).Perm packs) :
+    (executeOpsDup d packs [(n, ps)]).Perm ((n - d, 0) :: kept) := by
+  have he : ps.isEmpty = false := by cases ps <;> simp_all
+  simp only [executeOpsDup, he]
+  exact List.Perm.cons _ (foldl_erase_perm ps packs kept h)
+
+/-! ### `_max_pack_count` is the digit sum of `str(total)` -/
+
+theorem charDigit_digitChar : ∀ d, d < 10 → charDigit (Nat.digitChar d) = d := by decide
+
+/-- the fuelled recursion is the sum of the decimal digit characters -/
+theorem digitSumAux_eq_toDigits (fuel : Nat) : ∀ t, t ≤ fuel →
+    digitSumAux fuel t = if t = 0 then 0 else ((Nat.toDigits 10 t).map charDigit).sum := by
+  induction fuel with
+  | zero =>
+    intro t h
+    have : t = 0 := by omega
+    subst this; simp [digitSumAux]
+  | succ f ih =>
+    intro t h
+    unfold digitSumAux
+    split
+    · rfl
+    · next h0 =>
+      rw [ih (t / 10) (by omega), Nat.toDigits_eq_if (b := 10) (n := t) (by decide)]
+      by_cases hlt : t < 10
+      · have hd : t / 10 = 0 := by omega
+        have hm : t % 10 = t := by omega
+        simp [hlt, hd, hm, charDigit_digitChar t hlt]
+      · have hd : t / 10 ≠ 0 := by omega
+        simp only [hlt, hd, if_false, List.map_append, List.map_cons, List.map_nil,
+          List.sum_append_nat, List.sum_cons, List.sum_nil,
+          charDigit_digitChar (t % 10) (Nat.mod_lt _ (by decide))]
+        omega
+
 end BreezyVerif.C07
